@@ -4,7 +4,7 @@ import re
 from . import common as C
 from . import programs as P
 from . import values as V
-from .decprops import (CFGS, TB_COMMON, corpus_files, dec_class, enc_project, enc_tie, hexs, own_corpus, run_both, second_encode_tie)
+from .decprops import (CFGS, TB_COMMON, corpus_files, dec_class, enc_project, enc_tie, hexs, own_corpus, run_both, second_encode_tie, float_text_instances)
 
 GO_NAN = 0x7ff8000000000001
 
@@ -118,8 +118,8 @@ with_relatives, render_raw, strip_raw = V.with_relatives, V.render_raw, V.strip_
 
 class C03:
     prop = "C03"
-    lean_module = "Ogorek.Props.C03R"
-    theorems = ["Ogorek.C03_roundtrip", "Ogorek.C03_roundtrip_bin", "Ogorek.C03_normal_form", "Ogorek.C03_normal_form_reflect", "Ogorek.encR_lower",
+    lean_module = "Ogorek.Props.C03Dec"
+    theorems = ["Ogorek.C03_roundtrip", "Ogorek.C03_roundtrip_dec", "Ogorek.C03_normal_form_dec", "Ogorek.FloatsOK_of_b", "Ogorek.floatTextOK_of_b", "Ogorek.C03_roundtrip_bin", "Ogorek.C03_normal_form", "Ogorek.C03_normal_form_reflect", "Ogorek.encR_lower",
                 "Ogorek.rt_val", "Ogorek.rtn_val", "Ogorek.C03_int", "Ogorek.parseDecimal_fmtInt",
                 "Ogorek.toSigned_ofSigned_32", "Ogorek.goEqual_strip", "Ogorek.assignAll_of_keysOK", "Ogorek.C03_string_p0",
                 "Ogorek.C03_unicode_p0", "Ogorek.pyquote_inv", "Ogorek.pyquote_no_lf", "Ogorek.rue_inv", "Ogorek.rue_no_lf",
@@ -145,7 +145,7 @@ class C03:
                   "*big.Int above 2^63-1; struct -> map / Dict of its fields; `norm` is the identity on canonical values), and by "
                   "C03_normal_form_reflect for the reflect universe: typed slices / arrays, maps of any key type, pointer chains, nil pointers "
                   "and interfaces, structs with tagged / untagged / unexported fields are written exactly like the plain value `lower rv` "
-                  "(encR_lower), so they round-trip to its normal form. PARTIAL: that float-text hypothesis, *big.Int keys of builtin maps, "
+                  "(encR_lower), so they round-trip to its normal form. The protocol-0 float-text hypothesis (ParseFloat reads %g back; not proved for all floats) is decidable per float: floatsOKb runs the model's formatter and parser on every float of the value, C03_roundtrip_dec / C03_normal_form_dec restates the theorem with it, and the check evaluates it for every float of its protocol-0 cases (evidence: `protocol-0 float text hypothesis:*`), so those cases are instances of the theorem. PARTIAL: that float-text hypothesis for floats no run has met, *big.Int keys of builtin maps, "
                   "and the widening of narrow int / float32 values (done by the harness when it describes a value) are tied by correspondence: decode(encode(v)) is computed "
                   "by the implementation and by the model for every generated value x protocol x mode and compared with each other and "
                   "with the documented normal form; the argument is re-rendered after Encode to detect mutation.")
@@ -201,6 +201,7 @@ class C03:
             lines.append(f"rt {p} {int(pd)}{int(su)} {render_raw(v)}")
             meta.append((p, pd, su, strip_raw(v)))
         go, lean = run_both(lines)
+        float_text_instances(ctx, [(m[0], ln) for m, ln in zip(meta, lines)])
         for line, (p, pd, su, v), g, l in zip(lines, meta, go, lean):
             ctx.evaluations += 1
             ctx.nontrivial(line)
@@ -286,8 +287,8 @@ def own_corpus_lines(prop):
 
 class C05:
     prop = "C05"
-    lean_module = "Ogorek.Props.C05"
-    theorems = ["Ogorek.C05_reencode", "Ogorek.C05_decodes_back", "Ogorek.rep_resolve", "Ogorek.canon_of_rep", "Ogorek.exec_heapKeys",
+    lean_module = "Ogorek.Props.C03Dec"
+    theorems = ["Ogorek.C05_reencode", "Ogorek.C05_reencode_dec", "Ogorek.FloatsOK_of_b", "Ogorek.C05_decodes_back", "Ogorek.rep_resolve", "Ogorek.canon_of_rep", "Ogorek.exec_heapKeys",
                 "Ogorek.decode_heapKeys", "Ogorek.C05_encodable",
                 "Ogorek.C16_resolved", "Ogorek.C16_result_wf", "Ogorek.C03_roundtrip"]
     trusted_base = TB_COMMON
@@ -301,7 +302,7 @@ class C05:
                   "makes the represented value canonical (canon_of_rep, mutual structural induction), then the round-trip theorem "
                   "C03_roundtrip applies. That every resolved acyclic result consists of documented types is C16_resolved / C16_result_wf, "
                   "and that the encoder accepts every such value except for the three documented limitations - never a TypeError, never "
-                  "a panic - is C05_encodable. PARTIAL: at protocol 0 the float-text hypothesis of C03 (ParseFloat inverts %g); *big.Int keys of builtin maps "
+                  "a panic - is C05_encodable. The protocol-0 float-text hypothesis (ParseFloat reads %g back; not proved for all floats) is decidable per float: floatsOKb runs the model's formatter and parser on every float of the value, C05_reencode_dec restates the theorem with it, and the check evaluates it for every float of its protocol-0 cases (evidence: `protocol-0 float text hypothesis:*`), so those cases are instances of the theorem. PARTIAL: at protocol 0 that hypothesis for floats no run has met; *big.Int keys of builtin maps "
                   "(excluded by shapeOK). These are tied by correspondence: decode->encode(p)->decode is run by the implementation and by the model on every "
                   "successful input.")
     level_note = ("trusted: Lean kernel + standard axioms; encoder / decoder models; results with cycles, beyond the node budget, or containing "
@@ -368,6 +369,7 @@ class C05:
                 lines.append(f"reenc {cfg} {hexs(data[:300000])}")
                 meta.append((cfg, data))
         go, lean = run_both(lines)
+        float_text_instances(ctx, [(0, g) for g in go if g.startswith("OK ")])     # every decoded value is re-encoded at protocol 0 too
         for line, (cfg, data), g, l in zip(lines, meta, go, lean):
             ctx.evaluations += 1
             if g.startswith("SKIP") or l.startswith("SKIP"):
